@@ -131,6 +131,8 @@ def explore(modname, shards, nproc=None, chunk=300, budget_s=600,
                 for v in r["violations"]:
                     v["shard"] = key
                     v["params"] = params
+                    v["module"] = m
+                    v["factory"] = f
                     res.violations.append(v)
                 if len(res.samples) < 6:
                     for s in r["samples"][:1]:
